@@ -4,6 +4,7 @@ import (
 	"fmt"
 	"go/constant"
 	"go/token"
+	"go/types"
 	"strings"
 
 	"golang.org/x/tools/go/ssa"
@@ -72,11 +73,16 @@ func runC03(c *Ctx) {
 	if sd != nil {
 		var marshal *ssa.Call
 		nm := 0
-		for _, call := range callsIn(sd, func(call ssa.CallInstruction) bool { return calleeIs(call, "google.golang.org/protobuf/proto.Marshal") }) {
+		for _, call := range callsIn(sd, func(call ssa.CallInstruction) bool {
+			return calleeIs(call, "google.golang.org/protobuf/proto.Marshal") && !typeMentions(call.Common().Args[0], epbPkg, "VMGoldenMeasurement")
+		}) {
+			_ = call
 			nm++
-			if typeMentions(call.Common().Args[0], epbPkg, "VMGoldenMeasurement") {
-				marshal = call.(*ssa.Call)
-			}
+		}
+		// the golden measurement may be marshalled in SignDoc or in a helper that returns the bytes
+		for _, ms := range c.goldenMarshalSites(sd, epbPkg) {
+			nm++
+			marshal = ms.site
 		}
 		c.S.Check(marshal != nil && nm == 1, "R1", "endorse.SignDoc:single marshal", c.pos(sd.Pos()), "the golden measurement is marshalled exactly once", fmt.Sprintf("%d proto.Marshal calls in SignDoc", nm))
 		if marshal != nil {
@@ -130,27 +136,48 @@ func runC03(c *Ctx) {
 			c.S.Check(okDigest, "R1", "endorse.SignDoc:signed digest", c.pos(marshal.Pos()), "the signed digest is SHA-256 of the very bytes that are stored", "the digest that is signed is not SHA-256 over the stored payload bytes")
 			// R3
 			if signCall != nil {
-				var kv ssa.Value
+				// in SignDoc and the unexported helpers it is split into: the key-version argument of each of the three
+				// requests has exactly one string origin, the one PrimarySigningKeyVersion call of the region
 				okKey := true
 				uses := 0
-				for _, call := range callsIn(sd, func(call ssa.CallInstruction) bool {
-					return invokeIs(call, stypPkg, "CertificateAuthority", "Certificate") || invokeIs(call, stypPkg, "CertificateAuthority", "CABundle") || invokeIs(call, stypPkg, "Signer", "Sign")
-				}) {
-					uses++
-					a := call.Common().Args[1]
-					if kv == nil {
-						kv = a
-					} else if kv != a {
-						okKey = false
+				var primaries []ssa.Value
+				region := unexportedRegion(sd)
+				for _, rf := range region {
+					for _, call := range callsIn(rf, func(call ssa.CallInstruction) bool {
+						return invokeIs(call, stypPkg, "CertificateAuthority", "PrimarySigningKeyVersion")
+					}) {
+						primaries = append(primaries, call.Value())
 					}
 				}
-				fromPrimary := false
-				if ex, ok := kv.(*ssa.Extract); ok {
-					if pc, ok := ex.Tuple.(*ssa.Call); ok && invokeIs(pc, stypPkg, "CertificateAuthority", "PrimarySigningKeyVersion") {
-						fromPrimary = true
+				ksl := flow.NewSlicer(c.P)
+				ksl.LiftParams = 2
+				ksl.OpaqueInvokes = true
+				for _, rf := range region {
+					for _, call := range callsIn(rf, func(call ssa.CallInstruction) bool {
+						return invokeIs(call, stypPkg, "CertificateAuthority", "Certificate") || invokeIs(call, stypPkg, "CertificateAuthority", "CABundle") || invokeIs(call, stypPkg, "Signer", "Sign")
+					}) {
+						uses++
+						nPrim, nOther := 0, 0
+						for _, o := range ksl.Origins(call.Common().Args[1]) {
+							isStr := o.Type().String() == "string"
+							if tup, ok := o.Type().(*types.Tuple); ok && tup.Len() > 0 && tup.At(0).Type().String() == "string" {
+								isStr = true
+							}
+							if !isStr {
+								continue
+							}
+							if len(primaries) == 1 && o == primaries[0] {
+								nPrim++
+							} else {
+								nOther++
+							}
+						}
+						if nPrim != 1 || nOther != 0 {
+							okKey = false
+						}
 					}
 				}
-				c.S.Check(okKey && fromPrimary && uses == 3, "R3", "endorse.SignDoc:one key name", c.pos(signCall.Pos()), "certificate, bundle and signature use one key version from PrimarySigningKeyVersion", "certificate, CA bundle and signature are not all requested for the one primary signing key version")
+				c.S.Check(okKey && len(primaries) == 1 && uses == 3, "R3", "endorse.SignDoc:one key name", c.pos(signCall.Pos()), "certificate, bundle and signature use one key version from PrimarySigningKeyVersion", "certificate, CA bundle and signature are not all requested for the one primary signing key version")
 			}
 		}
 	}
